@@ -199,6 +199,12 @@ def unicode_class_gaps():
                     miss.add(c)
         for a, b in _ranges(miss):
             gaps.append('%s:%s:U+%04X-U+%04X' % (role, '/'.join(cats), a, b))
+    # and no ES5 white space or line terminator character may be an identifier character
+    from ref import es5_lexical as L
+    ws = {c for c in range(0x10000) if not 0xD800 <= c <= 0xDFFF and (unicodedata.category(chr(c)) in ('Zs', 'Zl', 'Zp') or chr(c) in L.WHITESPACE_FIXED + '\n\r')}
+    inside = {c for c in ws if ident.fullmatch('a' + chr(c)) or start.fullmatch(chr(c))}
+    for a, b in _ranges(inside):
+        gaps.append('white-space-in-identifier:Zs/Zl/Zp:U+%04X-U+%04X' % (a, b))
     return gaps
 
 
@@ -221,6 +227,12 @@ def replay_set(d):
                 toks = None
             if (toks == [item]) != (item in L.PUNCTUATORS):
                 bad.append(item)
+        elif w['set'] == 'identifier_characters' and item.startswith('white-space-in-identifier'):
+            a, b = [int(x[2:], 16) for x in item.split(':')[2].split('-')]
+            for c in sorted({a, b}):
+                ok, detail = lex_single('a' + chr(c) + 'b', 'ID')
+                if ok:
+                    bad.append('U+%04X (%s) is ES5 white space but `a<U+%04X>b` is read as one identifier' % (c, unicodedata.name(chr(c), '?'), c))
         elif w['set'] == 'identifier_characters':
             role, cats, rng = item.split(':')
             a, b = [int(x[2:], 16) for x in rng.split('-')]
